@@ -42,8 +42,9 @@ import (
 //       through dag-cbor and dag-json into a fresh value gives the normalised value up to ordered-map key order; a typed value
 //       built into the Go type reads back exactly as assembled, or is refused exactly when an integer does not fit;
 //   (D) `gobind.view` / `gobind.assign` of the Lean model (Model/GoBind.lean) answer what the implementation does, case by case.
-//   The Go types cover every slot shape verifyCompatibility accepts and the node code serves (core.UserBindEngine.AllSlotShapes):
-//   pointers for optional / nullable, ONE pointer on a slot that is not nullable, bare nilable types for optional / nullable fields.
+//   The Go types cover every slot shape verifyCompatibility accepts (core.UserBindEngine.AllSlotShapes): pointers for optional /
+//   nullable, ONE pointer more than a slot needs (*T where T would do, **T for nullable, ***T for optional nullable), bare nilable
+//   types for optional fields and for every nullable slot (struct field, list element, map value).
 
 func init() {
 	core.Register(&core.Check{ID: "C19", Run: runC19, Replay: replayC19})
@@ -208,11 +209,11 @@ func stripAbsent(v core.Val) core.Val {
 }
 
 func runC19(c *core.Ctx) error {
-	c.Rule = "(a) random values of a catalogue struct covering bool / int64 / int8 / uint8 / uint64 / float64 / string / []byte fields, a slice, optional and nullable pointers, a nested tuple struct, an ordered-map struct, a keyed-union struct and a link; Wrap, build+Unwrap, Marshal/Unmarshal through dag-cbor and dag-json; integers at and beyond each field's width; histories of repeated and interleaved Wrap/Prototype calls with explicit and with inferred schemas (four inferable Go types sharing member types) against the registry model; non-trivial = value with a non-empty list or ordered map; distinct by value.  (b) random schemas (core.GenSchema, plus integer-heavy structs), for each a random compatible Go type built with reflect (every integer kind int8…int64/int/uint8…uint64/uint for Int and for int-represented enums, string for enums, cid.Cid / cidlink.Link / datamodel.Link, datamodel.Node, slices, pointers for optional / nullable / both, ordered-map structs, union structs; and the other slot shapes verifyCompatibility accepts and the node code serves: ONE pointer on a required non-nullable struct field / list element / map value / value behind an optional field's or union member's pointer, and bare nilable Go types - slice, []byte, datamodel.Link, datamodel.Node - for optional or nullable struct fields), three random Go values of it by reflection (nil and non-nil pointers, nil / empty / non-empty slices, random key orders, boundary integers of each width, unsigned values above MaxInt64), two random typed values built into it (integers beyond the widths, struct fields in random order), one non-inhabitant in every fourth type; non-trivial = more than three nodes; distinct by case line"
-	c.Explanation = "theorems on the binding model: width_guard (an integer is stored iff it fits the field's width — the ideal; the code's wrap-around is the named deviation with its witness), binding_pure / binding_pure_history for every history of explicit and inferred bindings (the memoising registry), binding_inferred_twice_was_a_panic; on the Wrap/Unwrap model (Model/GoBind.lean, tied to the implementation by `gobind.view` / `gobind.assign` / `gobind.wt` / `gobind.compatible` on every case): view_assign_partial (wrap of what was built shows exactly the normal form of what was assembled, unless an empty list went into an optional / nullable field bound to a bare slice: nilableSlotEmptyList, the known finding, with view_assign_fails_nilable_slot_empty_list; view_norm_partial / norm_loses_empty_list_in_nilable_slot the same for the normalisation), unwrap_well_typed, pointer_uint64_reads_back, optional_in_bare_nilable_is_absent, assign_view (Unwrap∘build of a wrapped value's content is the value up to GoVal.norm), view_total, view_conforms / view_normal, assign_refuses_iff (refused iff not conforming or an integer - an enum member's representation int included - does not fit), marshal_unmarshal (composition with C08 ofRepr_repr_partial), the others at full strength under t.wf and compatible only (each shown to be needed: view_assign_needs_wf, assign_refuses_iff_needs_wf, assign_refuses_iff_needs_compatible); the repaired deviations as theorems of the repaired behaviour (enum_300_into_int8_is_refused, uint_above_int64_reads_back)"
-	c.Assumptions = []string{"Go values are compared as data: nil and empty slices/maps identified, ordered-map key order canonicalised after a key-sorting codec", "custom converters are user code and not registered", "Go values that are not inhabitants of the schema (a union struct with no or several members set, Keys/Values out of step) are outside the quantifier",
-		"the shape vocabulary is what verifyCompatibility accepts and the node code serves: pointers for optional and nullable, one pointer on a slot that is not nullable, bare nilable Go types for optional / nullable struct fields (where an empty list is lost: known finding C19/nilable-slot-empty-list-becomes-absent); accepted at bind time but not served, hence not generated: a nullable list element / map value bound to a bare slice (C19/nullable-element-bare-slice-read-panics), a nullable-only field bound to a double pointer (C19/nullable-double-pointer-build-panics); float64 only (a float32 field rounds silently); Go field names = strings.Title of the schema names",
-		"[]byte values are compared as data (nil and empty identified: the binding stores the slice it is handed); datamodel.Node values by their content",
+	c.Rule = "(a) random values of a catalogue struct covering bool / int64 / int8 / uint8 / uint64 / float64 / string / []byte fields, a slice, optional and nullable pointers, a nested tuple struct, an ordered-map struct, a keyed-union struct and a link; Wrap, build+Unwrap, Marshal/Unmarshal through dag-cbor and dag-json; integers at and beyond each field's width; histories of repeated and interleaved Wrap/Prototype calls with explicit and with inferred schemas (four inferable Go types sharing member types) against the registry model; non-trivial = value with a non-empty list or ordered map; distinct by value.  (b) random schemas (core.GenSchema, plus integer-heavy structs), for each a random compatible Go type built with reflect (every integer kind int8…int64/int/uint8…uint64/uint for Int and for int-represented enums, string for enums, cid.Cid / cidlink.Link / datamodel.Link, datamodel.Node, slices, pointers for optional / nullable / both, ordered-map structs, union structs; and the other slot shapes verifyCompatibility accepts: ONE pointer more than the slot needs - *T on a required non-nullable struct field / list element / map value / value behind an optional field's or union member's pointer, **T on a nullable one, ***T on an optional nullable field - and bare nilable Go types - slice, []byte, datamodel.Link, datamodel.Node - for optional struct fields and for nullable struct fields, list elements and map values), three random Go values of it by reflection (nil and non-nil pointers, nil / empty / non-empty slices, random key orders, boundary integers of each width, unsigned values above MaxInt64), two random typed values built into it (integers beyond the widths, struct fields in random order), one non-inhabitant in every fourth type; non-trivial = more than three nodes; distinct by case line"
+	c.Explanation = "theorems on the binding model: width_guard (an integer is stored iff it fits the field's width — the ideal; the code's wrap-around is the named deviation with its witness), binding_pure / binding_pure_history for every history of explicit and inferred bindings (the memoising registry), binding_inferred_twice_was_a_panic; on the Wrap/Unwrap model (Model/GoBind.lean, tied to the implementation by `gobind.view` / `gobind.assign` / `gobind.wt` / `gobind.compatible` on every case): view_assign (wrap of what was built shows exactly the normal form of what was assembled; no side condition), view_norm (the normalisation keeps the data), empty_list_in_bare_nilable_slot_stays_empty / norm_keeps_empty_list_in_nilable_slot (the repaired behaviour of the former known findings on empty lists / bytes in bare nilable slots), nullable_elements_in_bare_nilable, double_pointer_slots, unwrap_well_typed, pointer_uint64_reads_back, optional_in_bare_nilable_is_absent, assign_view (Unwrap∘build of a wrapped value's content is the value up to GoVal.norm), view_total, view_conforms / view_normal, assign_refuses_iff (refused iff not conforming or an integer - an enum member's representation int included - does not fit), marshal_unmarshal (composition with C08 ofRepr_repr_partial), the others at full strength under t.wf and compatible only (each shown to be needed: view_assign_needs_wf, assign_refuses_iff_needs_wf, assign_refuses_iff_needs_compatible); the earlier repaired deviations as theorems of the repaired behaviour (enum_300_into_int8_is_refused, uint_above_int64_reads_back)"
+	c.Assumptions = []string{"Go values are compared as data: nil and empty slices/maps identified where nil stands for the empty list (not in a bare nilable slot, where nil is absent / null and the empty value is kept apart), ordered-map key order canonicalised after a key-sorting codec", "custom converters are user code and not registered", "Go values that are not inhabitants of the schema (a union struct with no or several members set, Keys/Values out of step) are outside the quantifier",
+		"the shape vocabulary is what verifyCompatibility accepts: pointers for optional and nullable, one pointer more than a slot needs (*T, **T for nullable, ***T for optional nullable), bare nilable Go types for optional struct fields and for nullable struct fields / list elements / map values; a pointer to a nil pointer in a **T slot is not an inhabitant; float64 only (a float32 field rounds silently); Go field names = strings.Title of the schema names",
+		"[]byte values are compared as data (nil and empty identified except in a bare nilable slot, where nil is absent / null); datamodel.Node values by their content",
 		"values whose representation is ambiguous for a string strategy (a stringjoin field holding the delimiter) are not generated (C08 unambig); floats are non-integral (C04's known finding on integral floats in dag-json)"}
 	recT := c19TS.TypeByName("Rec")
 	// --- known-finding witnesses ---------------------------------------------------------------
@@ -540,7 +541,7 @@ func newC19Bind(t *core.SType, g *core.GTy) (b *c19Bind, err error) {
 			return nil, fmt.Errorf("go type %s does not rebuild from its tokens %s", rt, g.Tokens())
 		}
 	} else {
-		core.AnnotateGTy(g, t)
+		core.AnnotateGTy(g, t, false)
 		rt = g.Reflect()
 	}
 	defer func() {
@@ -584,51 +585,47 @@ type c19Node struct {
 	G           *core.GTy
 	T           *core.SType
 	V           core.Val
-	UnderKinded bool   // the value is directly the member of a kinded union
-	BareSlot    string // "optbare" / "nulbare": the value sits in an optional / nullable struct field bound to a bare nilable Go type
-	PlainPtr    bool   // the value sits behind ONE pointer in a slot that is not nullable (the node then holds the pointer)
+	UnderKinded bool // the value is directly the member of a kinded union
+	// MemberExtraPtr: the value is the member of a kinded or stringprefix union and sits behind one pointer more than the member's
+	// own (a union struct field **T): those unions hand the member's reflect value to a representation node as it is
+	MemberExtraPtr bool
 }
 
 // c19Nodes visits every present value of the canonical typed value v bound to Go type g (written against the token forms only).
-func c19Nodes(g *core.GTy, t *core.SType, nul bool, v core.Val, underKinded bool, bareSlot string, visit func(c19Node)) {
+func c19Nodes(g *core.GTy, t *core.SType, nul bool, v core.Val, underKinded bool, visit func(c19Node)) {
+	c19NodesAt(g, t, nul, v, underKinded, false, visit)
+}
+
+func c19NodesAt(g *core.GTy, t *core.SType, nul bool, v core.Val, underKinded, memberExtraPtr bool, visit func(c19Node)) {
 	if v.K == 'n' || v.K == 'a' {
 		return
 	}
-	plainPtr := false
-	if g.K == "ptr" {
+	for g.K == "ptr" {
 		g = g.Elem
-		plainPtr = !nul
 	}
-	visit(c19Node{G: g, T: t, V: v, UnderKinded: underKinded, BareSlot: bareSlot, PlainPtr: plainPtr})
+	visit(c19Node{G: g, T: t, V: v, UnderKinded: underKinded, MemberExtraPtr: memberExtraPtr})
 	switch t.K {
 	case "list":
 		for _, x := range v.L {
-			c19Nodes(g.Elem, t.Elem, t.Nullable, x, false, "", visit)
+			c19Nodes(g.Elem, t.Elem, t.Nullable, x, false, visit)
 		}
 	case "map":
 		for _, e := range v.M {
-			c19Nodes(g.Elem, t.Elem, t.Nullable, e.V, false, "", visit)
+			c19Nodes(g.Elem, t.Elem, t.Nullable, e.V, false, visit)
 		}
 	case "struct":
 		for i, f := range t.Fields {
 			if i >= len(v.M) || i >= len(g.Fields) {
 				continue
 			}
-			fg := g.Fields[i].T
-			slot := core.FieldSlot(fg, f.Opt, f.Nullable)
-			switch slot {
-			case "optptr":
-				c19Nodes(fg.Elem, f.T, f.Nullable, v.M[i].V, false, "", visit)
-			case "optbare", "nulbare":
-				c19Nodes(fg, f.T, false, v.M[i].V, false, slot, visit)
-			default:
-				c19Nodes(fg, f.T, f.Nullable, v.M[i].V, false, "", visit)
-			}
+			c19Nodes(g.Fields[i].T, f.T, f.Nullable, v.M[i].V, false, visit)
 		}
 	case "union":
 		for i, m := range t.Members {
 			if len(v.M) == 1 && string(v.M[0].K) == m.T.Name && i < len(g.Fields) {
-				c19Nodes(g.Fields[i].T.Elem, m.T, false, v.M[0].V, t.URepr == "kinded", "", visit)
+				mg := g.Fields[i].T
+				extra := (t.URepr == "kinded" || t.URepr == "prefix") && mg.K == "ptr" && mg.Elem.K == "ptr"
+				c19NodesAt(mg, m.T, false, v.M[0].V, t.URepr == "kinded", extra, visit)
 			}
 		}
 	}
@@ -638,7 +635,7 @@ func c19Nodes(g *core.GTy, t *core.SType, nul bool, v core.Val, underKinded bool
 // kind; "kinded" = any unsigned kind, directly as the member of a kinded union).
 func c19HasBigUnsigned(g *core.GTy, t *core.SType, nul bool, v core.Val, only string) bool {
 	found := false
-	c19Nodes(g, t, false, v, false, "", func(n c19Node) {
+	c19Nodes(g, t, false, v, false, func(n c19Node) {
 		if n.T.K != "int" {
 			return
 		}
@@ -656,57 +653,11 @@ func c19HasBigUnsigned(g *core.GTy, t *core.SType, nul bool, v core.Val, only st
 	return found
 }
 
-// c19EmptyInBareSlot: an EMPTY list (bytes) sits in an optional / nullable struct field bound to a bare Go slice ([]byte):
-// known finding C19/nilable-slot-empty-list-becomes-absent (and its dag-cbor variant for bytes).
-func c19EmptyInBareSlot(g *core.GTy, t *core.SType, v core.Val) (list, bytes bool) {
-	c19Nodes(g, t, false, v, false, "", func(n c19Node) {
-		if n.BareSlot == "" {
-			return
-		}
-		if n.T.K == "list" && n.G.K == "slice" && len(n.V.L) == 0 {
-			list = true
-		}
-		if n.T.K == "bytes" && n.G.K == "bytes" && len(n.V.S) == 0 {
-			bytes = true
-		}
-	})
-	return
-}
-
-// c19ReprUnsafeBehindPlainPtr: behind ONE pointer in a slot that is not nullable sits a value whose REPRESENTATION node works
-// on the reflect value without dereferencing it (repr.go never calls nonPtrVal): an int-represented enum (AsInt), a kinded or
-// stringprefix union (unionMember), a tuple or listpairs struct (their iterators), a map-represented struct with an optional
-// field (lengthMinusAbsents).  Known finding C19/plain-pointer-slot-representation-not-dereferenced.
-func c19ReprUnsafeBehindPlainPtr(g *core.GTy, t *core.SType, v core.Val) bool {
-	found := false
-	c19Nodes(g, t, false, v, false, "", func(n c19Node) {
-		if !n.PlainPtr {
-			return
-		}
-		switch n.T.K {
-		case "enum":
-			found = found || n.T.ERepr == "int"
-		case "union":
-			found = found || n.T.URepr == "kinded" || n.T.URepr == "prefix"
-		case "struct":
-			switch n.T.SRepr {
-			case "tuple", "listpairs":
-				found = true
-			case "map":
-				for _, f := range n.T.Fields {
-					found = found || f.Opt
-				}
-			}
-		}
-	})
-	return found
-}
-
 // c19IntsFit: every integer of the canonical typed value fits the Go kind it is bound to (the oracle for refusals; written
 // against the token forms only).
 func c19IntsFit(g *core.GTy, t *core.SType, nul bool, v core.Val, skipEnums bool) bool {
 	fits := true
-	c19Nodes(g, t, false, v, false, "", func(n c19Node) {
+	c19Nodes(g, t, false, v, false, func(n c19Node) {
 		switch n.T.K {
 		case "int":
 			bits, signed, _ := core.IntBits(n.G.K)
@@ -738,27 +689,47 @@ func c19IntsFit(g *core.GTy, t *core.SType, nul bool, v core.Val, skipEnums bool
 
 // c19SlotShapes lists the slot shapes of the binding (distribution).
 func c19SlotShapes(g *core.GTy, t *core.SType, nul bool, out map[string]bool) {
-	if g.K == "ptr" {
-		if !nul {
-			out["plain-slot-bound-to-pointer:"+t.K] = true
-		}
+	n := 0
+	for g.K == "ptr" {
 		g = g.Elem
+		n++
+	}
+	switch {
+	case nul && n == 0:
+		out["nullable-slot-bound-to-bare-nilable:"+g.K] = true
+	case nul && n == 2:
+		out["nullable-slot-bound-to-double-pointer:"+t.K] = true
+	case !nul && n == 1:
+		out["plain-slot-bound-to-pointer:"+t.K] = true
 	}
 	switch t.K {
-	case "list", "map":
+	case "list":
+		if t.Nullable && g.Elem.K != "ptr" {
+			out["nullable-list-element-bare:"+g.Elem.K] = true
+		}
+		c19SlotShapes(g.Elem, t.Elem, t.Nullable, out)
+	case "map":
+		if t.Nullable && g.Elem.K != "ptr" {
+			out["nullable-map-value-bare:"+g.Elem.K] = true
+		}
 		c19SlotShapes(g.Elem, t.Elem, t.Nullable, out)
 	case "struct":
 		for i, f := range t.Fields {
 			fg := g.Fields[i].T
-			slot := core.FieldSlot(fg, f.Opt, f.Nullable)
-			switch slot {
+			switch slot := core.FieldSlot(fg, f.Opt, f.Nullable); slot {
 			case "optptr":
 				out["field:optional-pointer"] = true
+				if f.Nullable && fg.Elem.K == "ptr" && fg.Elem.Elem.K == "ptr" {
+					out["field:optional-nullable-triple-pointer"] = true
+				}
 				c19SlotShapes(fg.Elem, f.T, f.Nullable, out)
-			case "optbare", "nulbare":
-				out["field:"+slot+":"+fg.K] = true
+			case "optbare":
+				out["field:optbare:"+fg.K] = true
 				c19SlotShapes(fg, f.T, false, out)
 			default:
+				if f.Nullable && fg.K != "ptr" {
+					out["field:nulbare:"+fg.K] = true
+				}
 				c19SlotShapes(fg, f.T, f.Nullable, out)
 			}
 		}
@@ -858,8 +829,6 @@ func c19CheckGoValue(c *core.Ctx, b *c19Bind, pv reflect.Value, r *core.Rand, p 
 	c.Count(caseID, want.Size() > 3)
 	bigAny := c19HasBigUnsigned(b.G, b.T, false, want, "")
 	bigKinded := c19HasBigUnsigned(b.G, b.T, false, want, "kinded")
-	emptyListBare, emptyBytesBare := c19EmptyInBareSlot(b.G, b.T, want)
-	reprPtr := c19ReprUnsafeBehindPlainPtr(b.G, b.T, want)
 	// (O) wrap_faithful: the node API shows exactly the reflection walk
 	var node datamodel.Node
 	got := "wrap-panic"
@@ -903,11 +872,7 @@ func c19CheckGoValue(c *core.Ctx, b *c19Bind, pv reflect.Value, r *core.Rand, p 
 	p.add("gobind.assign "+b.Head+" VAL "+want.Term(), builtTokens, caseID, "C19/corr-assign")
 	// (O) the normalisation does not change the data held: the normalised value holds what the value holds
 	if nw, err := core.WalkGo(norm, b.G, b.T, false); err != nil || nw.Term() != want.Term() {
-		sig := "C19/normalisation-changes-data"
-		if emptyListBare {
-			sig = "C19/nilable-slot-empty-list-becomes-absent"
-		}
-		c.Fail(sig, core.Replay{Kind: "oracle", Case: caseID, Impl: fmt.Sprint(nw.Term(), err), Expected: want.Term(), Detail: "the data held by Unwrap(build(content of the value)) vs. the data held by the value"})
+		c.Fail("C19/normalisation-changes-data", core.Replay{Kind: "oracle", Case: caseID, Impl: fmt.Sprint(nw.Term(), err), Expected: want.Term(), Detail: "the data held by Unwrap(build(content of the value)) vs. the data held by the value"})
 	}
 	// (O) marshal_unmarshal, per codec, into a fresh value
 	wantSorted := core.GoValTokens(norm, b.G, true)
@@ -939,14 +904,15 @@ func c19CheckGoValue(c *core.Ctx, b *c19Bind, pv reflect.Value, r *core.Rand, p 
 				sig = "C19/dagjson-unsigned-above-int64"
 			case bigKinded:
 				sig = "C19/kinded-union-unsigned-above-int64-marshal-fails"
-			case reprPtr && sig == "C19/marshal-roundtrip-fails":
-				sig = "C19/plain-pointer-slot-representation-not-dereferenced"
-			case emptyBytesBare && cd.name == "dag-cbor" && sig == "C19/marshal-roundtrip-differs":
-				sig = "C19/nilable-slot-empty-bytes-becomes-absent-dagcbor"
 			}
 			c.Fail(sig, rp)
 		}
 		c.Dist("codec:" + cd.name)
+	}
+	// (O) pure, last because it scribbles over the Go value: a builder given the wrapped node with AssignNode produces a
+	// value of its own - later edits of either Go value, or further use of the builder, do not show in the other node
+	if node != nil && !panicked {
+		typedAliasing(c, "C19", caseID, b.Proto, node)
 	}
 }
 
@@ -977,11 +943,7 @@ func c19CheckTypedValue(c *core.Ctx, b *c19Bind, tl core.Val, r *core.Rand, p *c
 		got := "wrap-panic"
 		_, panicked, _ := core.Catch(func() error { got = readView(bindnode.Wrap(ptr.Interface(), b.ST)); return nil })
 		if panicked || got != tl.Term() {
-			sig := "C19/wrap-of-built-differs"
-			if l, _ := c19EmptyInBareSlot(b.G, b.T, tl); l {
-				sig = "C19/nilable-slot-empty-list-becomes-absent"
-			}
-			c.Fail(sig, core.Replay{Kind: "oracle", Case: caseID, Impl: got, Expected: tl.Term(), Detail: "Wrap(Unwrap(build(typed value))) read through the node API"})
+			c.Fail("C19/wrap-of-built-differs", core.Replay{Kind: "oracle", Case: caseID, Impl: got, Expected: tl.Term(), Detail: "Wrap(Unwrap(build(typed value))) read through the node API"})
 		}
 		c.Dist("build:accepted")
 	default:
@@ -1134,11 +1096,28 @@ var c19Directed = []string{
 	"c19.build struct n:636f756e74 ptr u64 n:6c slice ptr u64 ) SCHEMA struct map f:636f756e74:636f756e74 int f:6c:6c list int ) VAL { s636f756e74 i9223372036854775808 s6c [ i18446744073709551615 i1 ] }",
 	// … and optional / nullable struct fields bound to bare nilable Go types (slice, []byte, datamodel.Link, datamodel.Node),
 	// absent, null and present
-	"c19.bind struct n:74616773 slice string n:626c6f62 bytes n:726566 link:iface n:616e79 node n:6e slice i8 n:78 i64 ) SCHEMA struct map fo:74616773:74616773 list str fo:626c6f62:626c6f62 bytes fo:726566:726566 link fo:616e79:616e79 any fn:6e:6e list int f:78:78 int ) VAL ( nils nils nili nili nils i1 )",
+	"c19.bind struct n:74616773 slice string n:626c6f62 bytes n:726566 link:iface n:616e79 node n:6e slice i8 n:78 i64 ) SCHEMA struct map fo:74616773:74616773 list str fo:626c6f62:626c6f62 bytes fo:726566:726566 link fo:616e79:616e79 any fn:6e:6e list int f:78:78 int ) VAL ( nilb nilb nilb nilb nilb i1 )",
 	"c19.bind struct n:74616773 slice string n:626c6f62 bytes n:726566 link:iface n:616e79 node n:6e slice i8 n:78 i64 ) SCHEMA struct map fo:74616773:74616773 list str fo:626c6f62:626c6f62 bytes fo:726566:726566 link fo:616e79:616e79 any fn:6e:6e list int f:78:78 int ) VAL ( [ s61 s ] b00ff l0155a0e4020106 N { s6b [ i1 ] } [ i-128 i127 ] i1 )",
-	"c19.bind struct n:78 i64 n:74616773 slice string ) SCHEMA struct tuple f:78:78 int fo:74616773:74616773 list str ) VAL ( i1 nils )",
+	"c19.bind struct n:78 i64 n:74616773 slice string ) SCHEMA struct tuple f:78:78 int fo:74616773:74616773 list str ) VAL ( i1 nilb )",
 	"c19.build struct n:74616773 slice string n:626c6f62 bytes n:6e slice i8 ) SCHEMA struct listpairs fo:74616773:74616773 list str fo:626c6f62:626c6f62 bytes fn:6e:6e list int ) VAL { s74616773 a s626c6f62 b s6e n }",
 	"c19.build struct n:74616773 slice string n:6e slice i8 ) SCHEMA struct map fo:74616773:74616773 list str fn:6e:6e list int ) VAL { s74616773 [ s78 ] s6e [ i300 ] }",
+	// repaired (PENDING): an EMPTY list / empty bytes in an optional / nullable slot bound to a bare slice / []byte stays an empty
+	// list / empty bytes (it used to become absent / null); an empty list is a non-nil slice in every slot
+	"c19.build struct n:74616773 slice string n:626c6f62 bytes n:6e slice i8 n:70 ptr slice bool n:71 slice bool ) SCHEMA struct map fo:74616773:74616773 list str fo:626c6f62:626c6f62 bytes fn:6e:6e list int fn:70:70 list bool f:71:71 list bool ) VAL { s74616773 [ ] s626c6f62 b s6e [ ] s70 [ ] s71 [ ] }",
+	"c19.bind struct n:74616773 slice string n:626c6f62 bytes n:6e slice i8 n:71 slice bool ) SCHEMA struct map fo:74616773:74616773 list str fo:626c6f62:626c6f62 bytes fn:6e:6e list int f:71:71 list bool ) VAL ( [ ] b [ ] nils )",
+	// repaired (PENDING): nullable list elements / map values bound to bare nilable types, nil and non-nil
+	"c19.bind struct n:6c slice slice string n:6d omap bytes n:6b slice link:iface n:61 slice node ) SCHEMA struct map f:6c:6c list? list str f:6d:6d map? bytes f:6b:6b list? link f:61:61 list? any ) VAL ( [ nilb [ s61 ] [ ] ] m k[ s78 s79 ] v{ s78 nilb s79 b00 } [ nilb l0155a0e4020106 ] [ N i1 nilb N { s6b [ n ] } ] )",
+	"c19.build slice slice i8 SCHEMA list? list int VAL [ n [ i1 ] [ ] [ i200 ] ]",
+	"c19.build slice slice i8 SCHEMA list? list int VAL [ n [ i1 ] [ ] ]",
+	// repaired (PENDING): one pointer more than needed on a nullable slot (**T), on optional and nullable (***T)
+	"c19.bind struct n:78 ptr ptr i64 n:79 ptr ptr ptr u8 n:6c slice ptr ptr string ) SCHEMA struct map fn:78:78 int fon:79:79 int f:6c:6c list? str ) VAL ( & & i-5 & & & i255 [ nilp & & s61 ] )",
+	"c19.bind struct n:78 ptr ptr i64 n:79 ptr ptr ptr u8 n:6c slice ptr ptr string ) SCHEMA struct map fn:78:78 int fon:79:79 int f:6c:6c list? str ) VAL ( nilp & nilp [ ] )",
+	"c19.bind struct n:78 ptr ptr i64 n:79 ptr ptr ptr u8 n:6c slice ptr ptr string ) SCHEMA struct map fn:78:78 int fon:79:79 int f:6c:6c list? str ) VAL ( nilp nilp nils )",
+	"c19.build struct n:78 ptr ptr i64 n:79 ptr ptr ptr u8 ) SCHEMA struct map fn:78:78 int fon:79:79 int ) VAL { s78 i5 s79 i256 }",
+	"c19.build struct n:78 ptr ptr i64 n:79 ptr ptr ptr u8 ) SCHEMA struct map fn:78:78 int fon:79:79 int ) VAL { s78 n s79 i255 }",
+	// repaired (PENDING): the representation of a value behind the pointer of a slot that is not nullable (int-represented enum,
+	// kinded union, tuple struct, map-represented struct with an optional field)
+	"c19.bind struct n:65 ptr u8 n:75 ptr struct n:5441 ptr i64 n:5442 ptr string ) n:74 ptr struct n:61 i64 n:62 ptr string ) n:6d ptr struct n:61 ptr string n:62 i8 ) ) SCHEMA struct map f:65:65 enum int e:41:41:7 ) f:75:75 union kinded m:5441:5441:int int m:5442:5442:str str ) f:74:74 struct tuple f:61:61 int fo:62:62 str ) f:6d:6d struct map fo:61:61 str f:62:62 int ) ) VAL ( & i7 & ( nilp & s78 ) & ( i1 & s79 ) & ( nilp i2 ) )",
 }
 
 // c19RunCase executes one case line of this section (its correspondence lines are left pending in p).
@@ -1202,22 +1181,14 @@ func c19BindReplay(c *core.Ctx, line string) error {
 
 // --- witnesses of the known findings of this section (hand-declared Go types) ---------------------------
 
-type c19WOptSlice struct{ L []string }
 type c19WU64 struct{ X uint64 }
 type c19WKinded struct{ Int *uint64 }
-type c19WNulElem struct{ L [][]string }
-type c19WNulPP struct{ X **int64 }
 
 var c19WitnessTS = schema.MustTypeSystem(
 	schema.SpawnInt("Int"), schema.SpawnString("String"),
 	schema.SpawnList("LS", "String", false),
 	schema.SpawnStruct("WUint", []schema.StructField{schema.SpawnStructField("X", "Int", false, false)}, schema.SpawnStructRepresentationMap(nil)),
-	schema.SpawnStruct("WOptSlice", []schema.StructField{schema.SpawnStructField("L", "LS", true, false)}, schema.SpawnStructRepresentationMap(nil)),
 	schema.SpawnUnion("WKinded", []schema.TypeName{"Int"}, schema.SpawnUnionRepresentationKinded(map[datamodel.Kind]schema.TypeName{datamodel.Kind_Int: "Int"})),
-	schema.SpawnList("LnLS", "LS", true),
-	schema.SpawnStruct("WNulElem", []schema.StructField{schema.SpawnStructField("L", "LnLS", false, false)}, schema.SpawnStructRepresentationMap(nil)),
-	schema.SpawnStruct("WNulPP", []schema.StructField{schema.SpawnStructField("X", "Int", false, true)}, schema.SpawnStructRepresentationMap(nil)),
-	schema.SpawnStruct("WNulSlice", []schema.StructField{schema.SpawnStructField("L", "LS", false, true)}, schema.SpawnStructRepresentationMap(nil)),
 )
 
 func c19BindWitnesses(c *core.Ctx) {
@@ -1233,38 +1204,6 @@ func c19BindWitnesses(c *core.Ctx) {
 		v := c19WKinded{Int: &x}
 		_, err := ipld.Marshal(dagcbor.Encode, &v, c19WitnessTS.TypeByName("WKinded"))
 		c.KnownWitness("C19/kinded-union-unsigned-above-int64-marshal-fails", err != nil, "ipld.Marshal(dagcbor.Encode, &struct{Int *uint64}{&(1<<63)}, kinded union {Int int}) fails: "+fmt.Sprint(err))
-	}
-	// nullable list elements bound to a bare slice: accepted at bind time, reading a non-nil element panics
-	{
-		v := c19WNulElem{L: [][]string{nil, {"a"}}}
-		got := "bind-panic"
-		core.Catch(func() error { got = readView(bindnode.Wrap(&v, c19WitnessTS.TypeByName("WNulElem"))); return nil })
-		c.KnownWitness("C19/nullable-element-bare-slice-read-panics", got != "{ s4c [ n [ s61 ] ] }", "Wrap(&struct{L [][]string}{{nil, {\"a\"}}}) with L [nullable [String]] reads as "+got)
-	}
-	// a nullable (not optional) field bound to a double pointer: accepted at bind time, the assembler panics
-	{
-		nb := bindnode.Prototype((*c19WNulPP)(nil), c19WitnessTS.TypeByName("WNulPP")).NewBuilder()
-		err, panicked, pv := core.Catch(func() error { return core.Assemble(nb, core.Map(core.KV{K: []byte("X"), V: core.Int(5)}), nil) })
-		c.KnownWitness("C19/nullable-double-pointer-build-panics", panicked, fmt.Sprint("assembling {X: 5} into struct{X **int64} with X nullable Int: ", err, pv))
-	}
-	// optional / nullable field bound to a plain (nilable) slice: an empty list becomes absent / null
-	{
-		v := c19WOptSlice{L: []string{}}
-		st := c19WitnessTS.TypeByName("WOptSlice")
-		var out c19WOptSlice
-		after := "?"
-		err, panicked, _ := core.Catch(func() error {
-			enc, err := ipld.Marshal(dagcbor.Encode, &v, st)
-			if err != nil {
-				return err
-			}
-			if _, err := ipld.Unmarshal(enc, dagcbor.Decode, &out, st); err != nil {
-				return err
-			}
-			after = readView(bindnode.Wrap(&out, st))
-			return nil
-		})
-		c.KnownWitness("C19/nilable-slot-empty-list-becomes-absent", err == nil && !panicked && after != "{ s4c [ ] }", "struct{L []string}{L: []string{}} with L optional: after Marshal/Unmarshal the value reads "+after)
 	}
 }
 
